@@ -316,7 +316,8 @@ theorem C02_protected_step_accepted (P : Prims) (hP : PrimsOk P) (sec : UeSec) (
     · omega
     · have := hused x hx; omega
 
-/-! ### the end-to-end statement (not proved) -/
+/-! ### the end-to-end statement (not proved as stated; at judge level — the whole uplink script of a UE, for every history —
+    it is `C02_script_accepted` in Props/C02Script.lean, built on Props/C02Steps.lean, C02Life.lean, C02History.lean) -/
 
 /-- what C02 asks of the model as a whole: for every configuration and every AMF behaviour `dl` that answers as a conformant
     AMF does, the reference AMF judges the model's transcript `accept`. Its proof needs the composite APER round trip (C04)
